@@ -38,8 +38,7 @@ Definition outcome_s (g : graph) (o : outcome) : string :=
 Definition opt_w (g : graph) (ps : list (list Z)) : string :=
   match best g ps with Some p => zs (weight g p) | None => "N"%string end.
 
-(* checked = true selects the model of the proposed repair of explicit_path (F11/F11b); false = code of today *)
-Definition run_rq (checked : bool) (n : net) (fib : list Z) (r : rq) : string :=
+Definition run_rq (n : net) (fib : list Z) (r : rq) : string :=
   let g := ngraph n in
   let s := q_src r in
   let t := q_dst r in
@@ -54,7 +53,7 @@ Definition run_rq (checked : bool) (n : net) (fib : list Z) (r : rq) : string :=
       let effps := match sat with [] => all | _ => sat end in
       let c_s := append "c=" (append (zlist_s inc) (flags_s st)) in
       let m_s :=
-        match (if checked then model_ccp_checked else model_ccp) n s t (inc ++ [t]) (st ++ [true]) with
+        match model_ccp n s t (inc ++ [t]) (st ++ [true]) with
         | Err e => append "m=E:" e
         | Ok (CExplicit p) =>
             append "m=X" (append (zs (weight g p))
@@ -87,13 +86,16 @@ Definition run_rq (checked : bool) (n : net) (fib : list Z) (r : rq) : string :=
       join "|" [c_s; m_s; s_s; v_s; r_s]
   end.
 
-Definition run_net (checked : bool) (g : graph) (kinds : string) (oms : list (list Z * option Z)) (fib : list Z)
+Definition run_net (g : graph) (kinds : string) (oms : list (list Z * option Z)) (fib : list Z)
            (rqs : list rq) : string :=
   let n := mk_net g kinds oms in
-  join ";" (map (run_rq checked n fib) rqs).
+  join ";" (map (run_rq n fib) rqs).
 
-(* large meshes: no enumeration; validator + dual-potential certificate (unconstrained requests) *)
-Definition run_big (g : graph) (cases : list (Z * Z * list Z * list Z)) : string :=
-  join ";" (map (fun c : Z * Z * list Z * list Z =>
-                   let '(s, t, pi, p) := c in
-                   join "," [bs (route_ok g s t [] p); bs (potential_ok g pi s t p); zs (weight g p)]) cases).
+(* large meshes: no enumeration; validator + certificate: one potential per leg of s -> includes -> t
+   (a single potential = the plain dual-potential certificate of an unconstrained request) *)
+Definition run_big (g : graph) (cases : list (Z * Z * list Z * list (list Z) * list Z)) : string :=
+  join ";" (map (fun c : Z * Z * list Z * list (list Z) * list Z =>
+                   let '(s, t, inc, pis, p) := c in
+                   join "," [bs (route_ok g s t inc p);
+                             bs (match pis, inc with [pi], [] => potential_ok g pi s t p | _, _ => seg_cert_ok g pis s t inc p end);
+                             zs (weight g p)]) cases).
